@@ -387,7 +387,7 @@ class Job:
         res.update({'lift_s': round(self.lift_s, 3), 'solver_s': round(st.solver_s, 3), 'queries': st.queries,
                     'trivial_queries': st.trivial, 'max_query_s': round(st.max_query_s, 3),
                     'aig_nodes': len(d.nodes), 'input_bits': d.nvars, 'wall_s': round(time.time() - self.t0, 3),
-                    'loop_feasibility_queries': E.solver_calls, 'loop_feasibility_by_random_model': E.precheck_hits, 'guarded_failures': len(E.errors),
+                    'loop_feasibility_queries': E.solver_calls, 'prune_queries': E.prune_queries, 'loop_feasibility_by_random_model': E.precheck_hits, 'guarded_failures': len(E.errors),
                     'unwinding_obligations': len(E.unwind)})
         return res
 
